@@ -114,6 +114,7 @@ pub fn run(sc: &Value) -> Value {
         })
     }));
     let (a2, s3) = (arch.clone(), src3.clone());
+    let break_lock = sc["break_lock"].as_bool().unwrap_or(false);
     let tg = spawn(if two_backups { "backup2" } else { "gc" }, Box::new(move || {
         let rt = tokio::runtime::Builder::new_current_thread().enable_all().build().unwrap();
         rt.block_on(async {
@@ -124,7 +125,7 @@ pub fn run(sc: &Value) -> Value {
                     Err(e) => format!("Err:{e:?}"),
                 };
             }
-            let r = archive.delete_bands(&delete_ids, &DeleteOptions::default(), TestMonitor::arc()).await;
+            let r = archive.delete_bands(&delete_ids, &DeleteOptions { dry_run: false, break_lock }, TestMonitor::arc()).await;
             tokio::time::sleep(std::time::Duration::from_millis(20)).await;
             match r {
                 Ok(_) => "Ok".to_string(),
